@@ -60,6 +60,7 @@ B62 = "0123456789abcdefghijklmnopqrstuvwxyzABCDEFGHIJKLMNOPQRSTUVWXYZ"
 LOCK = threading.Lock()
 LOG = {}            # token -> [snapshot, ...]
 EVENTS = {}         # token -> Event set when the body ran
+REQMUT = set()      # tokens of calls whose method writes into the annotations dict of its own request
 GATES = {}          # gate name -> Barrier
 DEFER = set()       # tokens of oneway calls whose thread start is held back
 HELD = {}           # token -> thread object waiting to be started
@@ -145,6 +146,12 @@ def _body(token, mode, gate):
     if gate:
         _gate(gate)
     snap = _snapshot()
+    if token in REQMUT:
+        # the method treats the annotations of ITS request as its own scratch data (adds to the dict it was given)
+        try:
+            c.annotations["X" + tag_of(token)[1:]] = b"scribbled by %d" % token
+        except Exception:       # noqa
+            pass
     if mode == "assign":
         c.response_annotations = {tag_of(token): tagval(token)}
     elif mode == "mutate":
@@ -549,6 +556,8 @@ class _Run(object):
         what = "%s(token %d, %s) by client %d [step %s]" % (kind, tok, mode, conn.idx, idx)
         ser = SERS[st_.get("ser", 0) % 4]
         oneway = kind == "ow"
+        if st_.get("reqmut"):
+            REQMUT.add(tok)
         owmode = st_.get("owmode", "await") if oneway else None
         if oneway:
             with LOCK:
@@ -1072,7 +1081,7 @@ ANN = ["none", "assign", "mutate", "assign", "mutate"]
 OWMODES = ["await", "free", "defer1", "deferend", "definto", "definto"]
 WHY = ["object", "method", "payload"]
 MEMBER = [("ret", "none"), ("ret", "assign"), ("ret", "mutate"), ("rai", "none"), ("rai", "assign"), ("rai", "mutate")]
-RADIX = [len(OPS), 3, len(ANN), 3, 2, 4, len(OWMODES), 3, 6, 6, 6, 2, 2, 3]
+RADIX = [len(OPS), 3, len(ANN), 3, 2, 4, len(OWMODES), 3, 6, 6, 6, 2, 2, 3, 3]
 STEP_SPACE = 1
 for _r in RADIX:
     STEP_SPACE *= _r
@@ -1083,9 +1092,11 @@ def decode_step(x):
     for r_ in RADIX:
         f.append(x % r_)
         x //= r_
-    op, c, ann, reqann, corr, ser, owm, nmem, m0, m1, m2, bow, rawresp, why = f
+    op, c, ann, reqann, corr, ser, owm, nmem, m0, m1, m2, bow, rawresp, why, reqmut = f
     name = OPS[op]
     st_ = {"op": name.split(":")[0], "c": c, "reqann": reqann, "corr": corr, "ser": ser}
+    if reqmut == 0 and name.startswith("call:"):
+        st_["reqmut"] = 1       # the method writes into the annotations dict of its own request
     if name.startswith("gone:"):
         st_["kind"] = name.split(":")[1]
         st_["ann"] = ANN[ann]
@@ -1221,6 +1232,8 @@ def _labels(case):
             l.append("oneway-start-held-back")
         if s["op"] == "batch":
             l.append("batch")
+        if s.get("reqmut"):
+            l.append("method-writes-into-its-request-annotations" + ("-then-request-without-annotations" if any(x.get("reqann", 0) == 0 and x["op"] in ("call", "batch", "nested") for x in steps[i + 1:]) else ""))
         if s["op"] == "bad":
             l.append("malformed-call")
         if s["op"] == "gone":
